@@ -36,8 +36,12 @@ def run_check(pid, out):
 
 
 def main():
+    global SEEDED
     args = [a for a in sys.argv[1:] if not a.startswith("--")]
     own = "--own" in sys.argv
+    for a in sys.argv[1:]:
+        if a.startswith("--dir="):
+            SEEDED = os.path.join(VERIF, a.split("=", 1)[1])
     names = args or sorted(d for d in os.listdir(SEEDED) if os.path.isfile(os.path.join(SEEDED, d, "patch.diff")))
     if subprocess.run(["git", "-C", "/repo", "status", "--porcelain", "--untracked-files=no"], capture_output=True, text=True).stdout.strip():
         sys.exit("/repo working tree is not clean")
@@ -67,7 +71,10 @@ def main():
                 print("      %s: %s" % (p, x[:220]))
     json.dump(results, open(resfile, "w"), indent=1, sort_keys=True)
     with open(os.path.join(SEEDED, "INDEX.md"), "w") as f:
-        f.write("# Seeded changes (made by sub-agents from the property text only) and what the checks say\n\n")
+        if os.path.basename(SEEDED) == "reverts":
+            f.write("# Reverted fixes: each patch undoes one `fix:` commit of /repo; the rule that found the defect must fire again\n\n")
+        else:
+            f.write("# Seeded changes (made by sub-agents from the property text only) and what the checks say\n\n")
         f.write("Each change was confirmed in a scratch worktree (applies to /repo HEAD, the 261 tests pass with it, its demo.cpp\n"
                 "passes on the unchanged tree and fails with it). `caught by` lists the registered checks that exit 1 with the\n"
                 "change applied to /repo (first report line each).\n\n")
